@@ -13,7 +13,7 @@ E == Rec[l]
 More == l <= Len(Rec)
 Modes == BOOLEAN
 
-FreshAll(r) == LET f == Fresh(r.cfg, r.vars0) IN [m \in Modes |-> f]
+FreshAll(r) == LET f == Fresh(r.cfg, r.cfg.vars0) IN [m \in Modes |-> f]
 Init == /\ l = 2 /\ run = 1 /\ bad = <<>> /\ skip = FALSE /\ alive = Modes /\ ncyc = 0
         /\ Rec[1].a = "Reset" /\ cfg = Rec[1].cfg /\ s = FreshAll(Rec[1])
 Reset == /\ More /\ E.a = "Reset" /\ l' = l + 1 /\ run' = run + 1 /\ cfg' = E.cfg /\ s' = FreshAll(E)
@@ -32,6 +32,18 @@ Env == /\ More /\ ~skip /\ l' = l + 1 /\ UNCHANGED <<run, bad, skip, alive, ncyc
 
 \* tasks whose overrun counter the property pins down (a task with both SINGLE and INTERVAL
 \* is outside what it says about overruns)
+\* what the harness can decode of a counter of the given shape from the stored value
+ObsCount(shape, n) == CASE shape = "BOOL" -> n % 2 [] shape = "ENUM" -> n % 3 [] OTHER -> n
+Shape(n) == (CHOOSE c \in {cfg.counters[k] : k \in DOMAIN cfg.counters} : c.name = n).shape
+IsExecCounter(n) == \E j \in PIdx : n = "cnt" \o ToString(j - 1)
+\* counters: per-program execution counters belong to the task model (C06); the others carry
+\* the restart semantics (C09); the value reached through a VAR_ACCESS path must be the
+\* program variable's; the stored tag must be the declared type (C03)
+CtrWhy(x) ==
+     (IF \A n \in DOMAIN x.ctr : IsExecCounter(n) => E.ctr[n] = x.ctr[n] THEN {} ELSE {"program-counters"})
+  \cup (IF \A n \in DOMAIN x.ctr : ~IsExecCounter(n) => E.ctr[n] = ObsCount(Shape(n), x.ctr[n]) THEN {} ELSE {"retain-variables"})
+  \cup (IF \A n \in DOMAIN E.acc : E.acc[n] = x.ctr[n] THEN {} ELSE {"access-path"})
+  \cup (IF \A n \in DOMAIN x.ctr : E.ctags[n] = Shape(n) THEN {} ELSE {"type-tag"})
 OverPinned(t) == ~(HasSingle(t) /\ cfg.tasks[t].interval > 0)
 ResOf(x0, x) == IF x0.faulted THEN "refused" ELSE IF x.faulted THEN "fault" ELSE "ok"
 Why(x0, x) ==
@@ -43,7 +55,7 @@ Why(x0, x) ==
   \cup (IF E.img.Q = x.img.Q THEN {} ELSE {"output-image"})
   \cup (IF E.img.M = x.img.M THEN {} ELSE {"memory-image"})
   \cup (IF \A v \in DOMAIN x.vars : E.vars[v] = x.vars[v] THEN {} ELSE {"bound-variables"})
-  \cup (IF \A j \in PIdx : E.cnt[j] = x.cnt[j] THEN {} ELSE {"program-counters"})
+  \cup CtrWhy(x)
   \cup (IF E.drv = x.drvLog THEN {} ELSE {"driver-calls"})
   \cup (IF E.faulted = x.faulted THEN {} ELSE {"fault-latch"})
   \cup (IF E.frames = 0 THEN {} ELSE {"frames-left"})
@@ -75,6 +87,26 @@ Out(f(_)) ==
 Ext == \/ E.a = "Watchdog" /\ Out(LAMBDA x : WatchdogOf(x))
        \/ E.a = "SimFault" /\ Out(LAMBDA x : SimFaultOf(x))
        \/ E.a = "DirectWrite" /\ Out(LAMBDA x : [DirectWriteOf(x, E.addr, E.val) EXCEPT !.drvLog = <<>>])
+\* restart / power cycle / access-path write: the projected state right after the call
+RsWhy(x) ==
+     (IF \A n \in DOMAIN x.ctr : E.ctr[n] = ObsCount(Shape(n), x.ctr[n]) THEN {} ELSE {"retain-variables"})
+  \cup (IF \A v \in DOMAIN x.vars : E.vars[v] = x.vars[v] THEN {} ELSE {"bound-variables"})
+  \cup (IF \A t \in TIdx : E.over[t] = x.overruns[t] THEN {} ELSE {"overruns"})
+  \cup (IF E.faulted = x.faulted THEN {} ELSE {"fault-latch"})
+  \cup (IF E.now = x.now THEN {} ELSE {"clock"})
+  \cup (IF \A n \in DOMAIN E.acc : E.acc[n] = x.ctr[n] THEN {} ELSE {"access-path"})
+  \cup (IF \A n \in DOMAIN x.ctr : E.ctags[n] = Shape(n) THEN {} ELSE {"type-tag"})
+  \cup (IF E.frames = 0 THEN {} ELSE {"frames-left"})
+Rs(f(_)) ==
+  /\ More /\ ~skip /\ l' = l + 1 /\ UNCHANGED <<run, alive, ncyc, cfg>>
+  /\ LET nx == [m \in Modes |-> f(s[m])]
+         m0 == CHOOSE m \in alive : TRUE
+         why == RsWhy(nx[m0])
+     IN /\ s' = nx
+        /\ IF why = {} THEN bad' = bad /\ skip' = FALSE ELSE Mark(why, "ext", nx[m0].img.Q) /\ skip' = TRUE
+Restart == \/ E.a = "Restart" /\ Rs(LAMBDA x : RestartOf(x, E.mode))
+           \/ E.a = "PowerCycle" /\ Rs(LAMBDA x : PowerCycleOf(x))
+           \/ E.a = "SetAccess" /\ Rs(LAMBDA x : SetAccessOf(x, E.name, E.val))
 \* reading a direct address returns exactly the bits/bytes it denotes and changes nothing
 DirectRead ==
   /\ More /\ ~skip /\ E.a = "DirectRead" /\ l' = l + 1 /\ UNCHANGED <<run, alive, ncyc, rvars>>
@@ -82,7 +114,7 @@ DirectRead ==
          ok == E.val = Decode(s[m0].img[E.addr.area], E.addr)
      IN IF ok THEN bad' = bad /\ skip' = FALSE ELSE Mark({"direct-read"}, "ext", s[m0].img.Q) /\ skip' = TRUE
 
-Next == More /\ (Reset \/ Skip \/ Env \/ Cyc \/ Ext \/ DirectRead)
+Next == More /\ (Reset \/ Skip \/ Env \/ Cyc \/ Ext \/ DirectRead \/ Restart)
 Spec == Init /\ [][Next]_tvars
 \* verdict, written once the last line has been consumed
 Done == l = Len(Rec) + 1 =>
